@@ -28,3 +28,20 @@ func VerifPipesListed(s interface{}) int {
 	defer sock.pipes.lock.Unlock()
 	return len(sock.pipes.pipes)
 }
+
+// VerifPipeIDSetNext positions the process-wide pipe ID counter (the IDs in
+// use are kept).  Verification hook; not part of normal builds.
+func VerifPipeIDSetNext(next uint32) {
+	pipeIDs.lock.Lock()
+	defer pipeIDs.lock.Unlock()
+	if pipeIDs.used == nil {
+		pipeIDs.used = make(map[uint32]struct{})
+	}
+	pipeIDs.next = next
+}
+
+// VerifPipeIDGet allocates a pipe ID exactly as a new pipe does.
+func VerifPipeIDGet() uint32 { return pipeIDs.Get() }
+
+// VerifPipeIDFree releases a pipe ID exactly as a closed pipe does.
+func VerifPipeIDFree(id uint32) { pipeIDs.Free(id) }
